@@ -584,7 +584,8 @@ class Engine:
 
         def eval_op(st, op, bi, idx, want_events):
             if op[0] == "k":
-                if op[3] and op[4] and ("Fn" in op[4] or "Ctor" in op[4]):
+                if op[3] and op[4] and ("Fn" in op[4] or "Ctor" in op[4]) and op[5] is None and \
+                        op[1].startswith(("fn(", "for<", "unsafe fn(", "extern ", "const fn(")):
                     return scalar({"fn:" + op[3]})
                 return Val()
             return read_place(st, op[1], want_events, bi, idx)
@@ -886,7 +887,7 @@ class Engine:
                         n = len([1 for kk in ords if kk[0] == k0])
                         ords[(k0, e.bb)] = n
                     e.sink = "%s|%s|%s" % (bid, "%s:%s" % k0, n)
-                    e.info = dict(e.info, body=bid)
+                    e.info = dict(e.info, body=bid, bb=e.bb[0])
             for e in events:
                 if e.kind in pol.propagate_kinds:
                     sym = frozenset(l for l in e.labels if l.startswith("@"))
